@@ -1,0 +1,310 @@
+//go:build verif
+
+package jd
+
+// Verification hooks (build tag "verif") for the v1 library. Add-only: nothing
+// outside this file refers to it and without the tag the file is not compiled.
+// The hooks give the external verification harness (/verif) a lossless,
+// order-defined encoding of nodes and diffs including their dynamic Go types,
+// and access to hash codes.
+//
+// Wire encoding (space separated tokens), identical to the v2 hooks for nodes:
+//
+//	node  V | N | T | F | #<16 hex: float64 bits> | "<hex of UTF-8>
+//	      | [r|[l|[s|[m node* ] | { ("<hex> node)* } | NIL (a nil interface value)
+//	hunk  ( node* | node* | node* )        path elements | old values | new values
+//	diff  < hunk* >
+//
+// v1 path elements are JsonNodes, so they are encoded as nodes.
+
+import (
+	"encoding/hex"
+	"fmt"
+	"math"
+	"sort"
+	"strconv"
+	"strings"
+)
+
+// VerifHashCode exposes hashCode.
+func VerifHashCode(n JsonNode, metadata []Metadata) [8]byte {
+	return n.hashCode(metadata)
+}
+
+// VerifIdent exposes ident for objects and hashCode for everything else.
+func VerifIdent(n JsonNode, metadata []Metadata) [8]byte {
+	if o, ok := n.(jsonObject); ok {
+		return o.ident(metadata)
+	}
+	return n.hashCode(metadata)
+}
+
+// VerifEncodeNode writes the tagged wire encoding of a node.
+func VerifEncodeNode(n JsonNode) string {
+	var b strings.Builder
+	verifEncNode(&b, n)
+	return b.String()
+}
+
+func verifHexStr(s string) string {
+	return hex.EncodeToString([]byte(s))
+}
+
+func verifEncNode(b *strings.Builder, n JsonNode) {
+	switch t := n.(type) {
+	case nil:
+		b.WriteString("NIL")
+	case voidNode:
+		b.WriteString("V")
+	case jsonNull:
+		b.WriteString("N")
+	case jsonBool:
+		if t {
+			b.WriteString("T")
+		} else {
+			b.WriteString("F")
+		}
+	case jsonNumber:
+		fmt.Fprintf(b, "#%016x", math.Float64bits(float64(t)))
+	case jsonString:
+		b.WriteString("\"")
+		b.WriteString(verifHexStr(string(t)))
+	case jsonStringOrInteger:
+		b.WriteString("SORI\"")
+		b.WriteString(verifHexStr(string(t)))
+	case jsonArray:
+		verifEncArr(b, "[r", []JsonNode(t))
+	case jsonList:
+		verifEncArr(b, "[l", []JsonNode(t))
+	case jsonSet:
+		verifEncArr(b, "[s", []JsonNode(t))
+	case jsonMultiset:
+		verifEncArr(b, "[m", []JsonNode(t))
+	case jsonObject:
+		verifEncObj(b, t)
+	default:
+		fmt.Fprintf(b, "UNKNOWN:%T", n)
+	}
+}
+
+func verifEncArr(b *strings.Builder, open string, l []JsonNode) {
+	b.WriteString(open)
+	for _, e := range l {
+		b.WriteString(" ")
+		verifEncNode(b, e)
+	}
+	b.WriteString(" ]")
+}
+
+func verifEncObj(b *strings.Builder, o map[string]JsonNode) {
+	keys := make([]string, 0, len(o))
+	for k := range o {
+		keys = append(keys, k)
+	}
+	sort.Strings(keys)
+	b.WriteString("{")
+	for _, k := range keys {
+		b.WriteString(" \"")
+		b.WriteString(verifHexStr(k))
+		b.WriteString(" ")
+		verifEncNode(b, o[k])
+	}
+	b.WriteString(" }")
+}
+
+func verifEncNodes(b *strings.Builder, l []JsonNode) {
+	for _, e := range l {
+		b.WriteString(" ")
+		verifEncNode(b, e)
+	}
+}
+
+// VerifEncodeDiff writes the wire encoding of a v1 diff.
+func VerifEncodeDiff(d Diff) string {
+	var b strings.Builder
+	b.WriteString("<")
+	for _, e := range d {
+		b.WriteString(" (")
+		verifEncNodes(&b, e.Path)
+		b.WriteString(" |")
+		verifEncNodes(&b, e.OldValues)
+		b.WriteString(" |")
+		verifEncNodes(&b, e.NewValues)
+		b.WriteString(" )")
+	}
+	b.WriteString(" >")
+	return b.String()
+}
+
+type verifDec struct {
+	toks []string
+	pos  int
+}
+
+func (d *verifDec) next() (string, error) {
+	if d.pos >= len(d.toks) {
+		return "", fmt.Errorf("unexpected end of tokens")
+	}
+	t := d.toks[d.pos]
+	d.pos++
+	return t, nil
+}
+
+func (d *verifDec) peek() string {
+	if d.pos >= len(d.toks) {
+		return ""
+	}
+	return d.toks[d.pos]
+}
+
+func verifUnhex(s string) (string, error) {
+	b, err := hex.DecodeString(s)
+	if err != nil {
+		return "", err
+	}
+	return string(b), nil
+}
+
+func (d *verifDec) node() (JsonNode, error) {
+	t, err := d.next()
+	if err != nil {
+		return nil, err
+	}
+	switch {
+	case t == "NIL":
+		return nil, nil
+	case t == "V":
+		return voidNode{}, nil
+	case t == "N":
+		return jsonNull(nil), nil
+	case t == "T":
+		return jsonBool(true), nil
+	case t == "F":
+		return jsonBool(false), nil
+	case strings.HasPrefix(t, "#"):
+		u, err := strconv.ParseUint(t[1:], 16, 64)
+		if err != nil {
+			return nil, err
+		}
+		return jsonNumber(math.Float64frombits(u)), nil
+	case strings.HasPrefix(t, "\""):
+		s, err := verifUnhex(t[1:])
+		if err != nil {
+			return nil, err
+		}
+		return jsonString(s), nil
+	case strings.HasPrefix(t, "SORI\""):
+		s, err := verifUnhex(t[5:])
+		if err != nil {
+			return nil, err
+		}
+		return jsonStringOrInteger(s), nil
+	case t == "[r" || t == "[l" || t == "[s" || t == "[m":
+		l := []JsonNode{}
+		for d.peek() != "]" {
+			if d.peek() == "" {
+				return nil, fmt.Errorf("missing ]")
+			}
+			e, err := d.node()
+			if err != nil {
+				return nil, err
+			}
+			l = append(l, e)
+		}
+		d.pos++
+		switch t {
+		case "[r":
+			return jsonArray(l), nil
+		case "[l":
+			return jsonList(l), nil
+		case "[s":
+			return jsonSet(l), nil
+		default:
+			return jsonMultiset(l), nil
+		}
+	case t == "{":
+		o := newJsonObject()
+		for d.peek() != "}" {
+			kt, err := d.next()
+			if err != nil {
+				return nil, err
+			}
+			if !strings.HasPrefix(kt, "\"") {
+				return nil, fmt.Errorf("bad key token %q", kt)
+			}
+			k, err := verifUnhex(kt[1:])
+			if err != nil {
+				return nil, err
+			}
+			v, err := d.node()
+			if err != nil {
+				return nil, err
+			}
+			o[k] = v
+		}
+		d.pos++
+		return o, nil
+	}
+	return nil, fmt.Errorf("bad node token %q", t)
+}
+
+func (d *verifDec) nodesUntil(stop string) ([]JsonNode, error) {
+	l := []JsonNode{}
+	for d.peek() != stop {
+		if d.peek() == "" {
+			return nil, fmt.Errorf("missing %q", stop)
+		}
+		e, err := d.node()
+		if err != nil {
+			return nil, err
+		}
+		l = append(l, e)
+	}
+	d.pos++
+	return l, nil
+}
+
+// VerifDecodeNode reads the wire encoding of a node, building the typed Go values directly.
+func VerifDecodeNode(s string) (JsonNode, error) {
+	d := &verifDec{toks: strings.Fields(s)}
+	n, err := d.node()
+	if err != nil {
+		return nil, err
+	}
+	if d.pos != len(d.toks) {
+		return nil, fmt.Errorf("trailing tokens")
+	}
+	return n, nil
+}
+
+// VerifDecodeDiff reads the wire encoding of a v1 diff.
+func VerifDecodeDiff(s string) (Diff, error) {
+	d := &verifDec{toks: strings.Fields(s)}
+	t, err := d.next()
+	if err != nil || t != "<" {
+		return nil, fmt.Errorf("expected <")
+	}
+	diff := Diff{}
+	for d.peek() != ">" {
+		t, err := d.next()
+		if err != nil || t != "(" {
+			return nil, fmt.Errorf("expected (")
+		}
+		e := DiffElement{}
+		if e.Path, err = d.nodesUntil("|"); err != nil {
+			return nil, err
+		}
+		if e.OldValues, err = d.nodesUntil("|"); err != nil {
+			return nil, err
+		}
+		if e.NewValues, err = d.nodesUntil(")"); err != nil {
+			return nil, err
+		}
+		diff = append(diff, e)
+	}
+	d.pos++
+	if d.pos != len(d.toks) {
+		return nil, fmt.Errorf("trailing tokens")
+	}
+	return diff, nil
+}
